@@ -50,6 +50,11 @@ def main():
         try:
             r = sh(["git", "-C", wt, "apply", str(d / "patch.diff")])
             if r.returncode != 0:
+                # the repository moved on since the change was written (fix: commits next to the hunk): reduced context
+                r = sh(["git", "-C", wt, "apply", "-C1", "--recount", str(d / "patch.diff")])
+                if r.returncode == 0:
+                    print(f"{sid}: patch applied with reduced context (repository HEAD is newer than the change's base)")
+            if r.returncode != 0:
                 print(f"{sid}: patch does not apply: {r.stderr[:200]}")
                 continue
             res = {}
